@@ -218,7 +218,7 @@ theorem deliver_streamBytes (H : Http) (role : Role) (m : Message) (h : Header) 
       exact (trailer_block H role m h L hwf hfit t' hm).1
   obtain ⟨ds, hpat, hflat, _⟩ := recvPattern_valid role (hdrOf H role L) _ _ _ _ hrun hH hTr script hsc
     hnr hfin hbytes
-  unfold deliver expected
+  unfold deliver deliverOf expected
   rw [hpat]
   simp only [hdec, bodyOf_data, endsOf_data, hflat]
   have hlast : ((ds.map Res.data ++ [Res.end_]).getLast? == some Res.end_) = true := by simp
